@@ -491,7 +491,7 @@ def rule_std_width(ctx, px, rule_id: str):
             return None
         return kind if pol else (("gt", kind[1]) if kind[0] == "le" else ("le", kind[1]))
 
-    def analyse(fn, w, value_of, label, rel, outer=None):
+    def analyse(fn, w, value_of, label, rel, outer=None, enum_seq=None):
         """value_of(expr) -> the integer width an assigned/returned expression stands for, or None"""
         found = []      # (lower bound exclusive, upper bound inclusive, selected width)
         closed = False
@@ -539,12 +539,19 @@ def rule_std_width(ctx, px, rule_id: str):
                 elif isinstance(n, (ast.ListComp, ast.GeneratorExp)) and len(n.generators) == 1 and isinstance(n.generators[0].target, ast.Name) \
                         and isinstance(n.elt, ast.Name) and n.elt.id == n.generators[0].target.id and len(n.generators[0].ifs) == 1:
                     it, var, test = resolve(n.generators[0].iter), n.generators[0].target.id, n.generators[0].ifs[0]
-                if it is None or test is None or not isinstance(it, (ast.List, ast.Tuple)):
+                if it is None or test is None:
+                    continue
+                elem = var
+                if isinstance(it, ast.Name) and enum_seq is not None and it.id in enum_seq[0]:
+                    # `for member in cls:` - the members in declaration order; the test reads member.value, the member is returned
+                    seq, elem = enum_seq[1], f"{var}.value"
+                elif isinstance(it, (ast.List, ast.Tuple)):
+                    seq = [const_int(e) for e in it.elts]
+                else:
                     continue
                 ok_t = isinstance(test, ast.Compare) and len(test.ops) == 1 and (
-                    (isinstance(test.ops[0], ast.LtE) and ast.unparse(test.left) == w and ast.unparse(test.comparators[0]) == var) or
-                    (isinstance(test.ops[0], ast.GtE) and ast.unparse(test.left) == var and ast.unparse(test.comparators[0]) == w))
-                seq = [const_int(e) for e in it.elts]
+                    (isinstance(test.ops[0], ast.LtE) and ast.unparse(test.left) == w and ast.unparse(test.comparators[0]) == elem) or
+                    (isinstance(test.ops[0], ast.GtE) and ast.unparse(test.left) == elem and ast.unparse(test.comparators[0]) == w))
                 found = [(None, k, k) for k in seq]
                 # the first element that fits wins (loop with return, [0] / next() / min() of the filtered sequence): ascending order
                 ok = ok_t and seq == STD
@@ -579,7 +586,7 @@ def rule_std_width(ctx, px, rule_id: str):
         if isinstance(e, ast.Call) and e.args:
             return member_value(e.args[0])
         return const_int(e)
-    analyse(gbf.node, wparam, member_value, "_CFit.get_best_fit", cm.rel)
+    analyse(gbf.node, wparam, member_value, "_CFit.get_best_fit", cm.rel, enum_seq=({"cls", "_CFit", gbf.node.args.args[0].arg}, list(members.values())))
     for modname in ("nunavut.lang.c", "nunavut.lang.cpp"):
         m = px.module(modname)
         f = m.funcs.get("filter_to_standard_bit_length")
